@@ -1,0 +1,69 @@
+//go:build verif
+// +build verif
+
+// Contracts for package anndb (server wiring; build tag verif only; no executable code).
+package anndb
+
+// C14 (survives restart) / C05 (no re-bootstrap): the start-up sequence as typestate.
+//   consumers - the catalogue state machine is registered with the shared zero group
+// RaftGroup.Start applies the stored snapshot synchronously and launches the loop that replays the log, so every consumer
+// of the zero group has to be registered before it; and StartNode may only be used on storage that holds nothing.
+//@ func (*anndb.Server).setup
+//@ props C14 C05
+//@ safety C12
+//@ ghost consumers int = 0
+//@ at call storage.NewDatasetManager
+//@ set consumers = 1
+//@ end
+//@ at call RaftGroup).Start
+//@ requires [C14 register-before-start] consumers == 1
+//@ end
+//@ modifies *
+
+// constructors used by the wiring: only their existence matters for the ordering obligations (bodies are not read here)
+//@ func storage/wal.NewBadgerWAL
+//@ props C14 C05
+//@ assume
+//@ ensures [wal] ret != nil
+//@ modifies *
+//@ func cluster.NewConn
+//@ props C14 C05
+//@ assume
+//@ modifies *
+//@ func storage.NewAllocator
+//@ props C14 C05
+//@ assume
+//@ ensures [a] ret != nil
+//@ modifies *
+//@ func storage/raft.NewTransport
+//@ props C14 C05
+//@ assume
+//@ ensures [t] ret != nil
+//@ modifies *
+//@ func storage/raft.NewSharedGroup
+//@ props C14 C05
+//@ assume
+//@ ensures [sg] isnil(ret1) ==> ret0 != nil
+//@ modifies *
+//@ func (*storage/raft.sharedGroup).Get
+//@ props C14 C05
+//@ assume
+//@ ensures [proxy] ret != nil
+//@ modifies *
+//@ func storage/raft.NewNodesManager
+//@ props C14 C05
+//@ assume
+//@ modifies *
+//@ func storage.NewDatasetManager
+//@ props C14 C05
+//@ assume
+//@ modifies *
+//@ func (*anndb.Server).getRaftNodeId
+//@ props C14 C05
+//@ assume
+//@ modifies *
+//@ func (*anndb.Server).getZeroNodeIds
+//@ props C14 C05
+//@ pure
+//@ requires [cfg] this.config != nil
+//@ modifies nothing
